@@ -1552,6 +1552,1247 @@ func fixedLayouts(model map[string]*ast.File) {
 
 // ==== END C07 addition =======================================================================================
 
+// ==== BEGIN header layouts, shared helpers (builder "bodies") ================================================
+// hdrLin: c + sum coef*symbol, the value of an index expression that is linear in a few named quantities.
+type hdrLin struct {
+	c int64
+	v map[string]int64
+}
+
+func hdrConst(c int64) hdrLin { return hdrLin{c: c, v: map[string]int64{}} }
+func hdrSym(s string) hdrLin  { return hdrLin{v: map[string]int64{s: 1}} }
+func (a hdrLin) plus(b hdrLin, sign int64) hdrLin {
+	r := hdrLin{c: a.c + sign*b.c, v: map[string]int64{}}
+	for k, x := range a.v {
+		r.v[k] += x
+	}
+	for k, x := range b.v {
+		r.v[k] += sign * x
+	}
+	for k, x := range r.v {
+		if x == 0 {
+			delete(r.v, k)
+		}
+	}
+	return r
+}
+func (a hdrLin) scale(k int64) hdrLin {
+	r := hdrLin{c: a.c * k, v: map[string]int64{}}
+	for s, x := range a.v {
+		if x*k != 0 {
+			r.v[s] = x * k
+		}
+	}
+	return r
+}
+func (a hdrLin) isConst() bool { return len(a.v) == 0 }
+
+// exactly c + 1*each of syms
+func (a hdrLin) over(syms ...string) (int64, bool) {
+	if len(a.v) != len(syms) {
+		return 0, false
+	}
+	for _, s := range syms {
+		if a.v[s] != 1 {
+			return 0, false
+		}
+	}
+	return a.c, true
+}
+
+// hdrEval evaluates an integer expression that is linear in symbols: env holds locals already evaluated,
+// sym recognises the expressions that stand for a symbol; int(...)/byte(...) style conversions are transparent.
+func hdrEval(e ast.Expr, env map[string]hdrLin, sym func(ast.Expr) (string, bool)) (hdrLin, bool) {
+	if s, ok := sym(e); ok {
+		return hdrSym(s), true
+	}
+	switch x := e.(type) {
+	case *ast.ParenExpr:
+		return hdrEval(x.X, env, sym)
+	case *ast.BasicLit:
+		if x.Kind == token.INT {
+			v, err := strconv.ParseInt(x.Value, 0, 64)
+			return hdrConst(v), err == nil
+		}
+	case *ast.Ident:
+		if v, ok := env[x.Name]; ok {
+			return v, true
+		}
+		if v, ok := consts[x.Name]; ok {
+			return hdrConst(v), true
+		}
+	case *ast.SelectorExpr:
+		if v, ok := intOf(x, nil); ok {
+			return hdrConst(v), true
+		}
+	case *ast.BinaryExpr:
+		a, ok1 := hdrEval(x.X, env, sym)
+		b, ok2 := hdrEval(x.Y, env, sym)
+		if !ok1 || !ok2 {
+			return hdrLin{}, false
+		}
+		switch x.Op {
+		case token.ADD:
+			return a.plus(b, 1), true
+		case token.SUB:
+			return a.plus(b, -1), true
+		case token.MUL:
+			if a.isConst() {
+				return b.scale(a.c), true
+			}
+			if b.isConst() {
+				return a.scale(b.c), true
+			}
+		}
+	case *ast.CallExpr:
+		if id, ok := x.Fun.(*ast.Ident); ok && len(x.Args) == 1 {
+			switch id.Name {
+			case "int", "byte", "uint8", "uint16", "uint32", "uint64", "int64":
+				return hdrEval(x.Args[0], env, sym)
+			}
+		}
+	}
+	return hdrLin{}, false
+}
+
+// hdrSlice: v[lo:hi] with linear bounds (lo omitted = 0; hi omitted = ok=false unless openOK)
+func hdrSlice(e ast.Expr, v string, env map[string]hdrLin, sym func(ast.Expr) (string, bool)) (hdrLin, hdrLin, bool) {
+	se, ok := e.(*ast.SliceExpr)
+	if !ok || se.Slice3 || se.High == nil {
+		return hdrLin{}, hdrLin{}, false
+	}
+	if id, ok := se.X.(*ast.Ident); !ok || id.Name != v {
+		return hdrLin{}, hdrLin{}, false
+	}
+	lo := hdrConst(0)
+	if se.Low != nil {
+		x, ok := hdrEval(se.Low, env, sym)
+		if !ok {
+			return hdrLin{}, hdrLin{}, false
+		}
+		lo = x
+	}
+	hi, ok := hdrEval(se.High, env, sym)
+	return lo, hi, ok
+}
+
+// hdrExtract: an expression that takes bits out of a word: shifts right, one mask, shifts right, under
+// conversions.  Result: value = ((word >> pre) & mask) >> post, trunc = 256 / 65536 when a byte / uint16 conversion
+// is applied (0 = none).  mask = -1 when the expression has none.
+func hdrExtract(e ast.Expr, isWord func(ast.Expr) bool) (pre, mask, post, trunc int64, ok bool) {
+	type op struct {
+		k byte
+		v int64
+	}
+	var ops []op
+	var rec func(e ast.Expr) bool
+	rec = func(e ast.Expr) bool {
+		if isWord(e) {
+			return true
+		}
+		switch x := e.(type) {
+		case *ast.ParenExpr:
+			return rec(x.X)
+		case *ast.CallExpr:
+			id, ok := x.Fun.(*ast.Ident)
+			if !ok || len(x.Args) != 1 {
+				return false
+			}
+			if !rec(x.Args[0]) {
+				return false
+			}
+			switch id.Name {
+			case "byte", "uint8":
+				trunc = 256
+			case "uint16":
+				if trunc == 0 {
+					trunc = 65536
+				}
+			}
+			return true
+		case *ast.BinaryExpr:
+			cy, oky := intOf(x.Y, nil)
+			cx, okx := intOf(x.X, nil)
+			switch {
+			case x.Op == token.SHR && oky:
+				if !rec(x.X) {
+					return false
+				}
+				ops = append(ops, op{'r', cy})
+				return true
+			case x.Op == token.AND && oky:
+				if !rec(x.X) {
+					return false
+				}
+				ops = append(ops, op{'a', cy})
+				return true
+			case x.Op == token.AND && okx:
+				if !rec(x.Y) {
+					return false
+				}
+				ops = append(ops, op{'a', cx})
+				return true
+			}
+		}
+		return false
+	}
+	if !rec(e) {
+		return 0, 0, 0, 0, false
+	}
+	mask = -1
+	for _, o := range ops {
+		switch {
+		case o.k == 'r' && mask < 0:
+			pre += o.v
+		case o.k == 'r':
+			post += o.v
+		case o.k == 'a' && mask < 0:
+			mask = o.v
+		default:
+			return 0, 0, 0, 0, false
+		}
+	}
+	return pre, mask, post, trunc, true
+}
+
+func hdrRecv(fd *ast.FuncDecl) string {
+	if fd.Recv != nil && len(fd.Recv.List) == 1 && len(fd.Recv.List[0].Names) == 1 {
+		return fd.Recv.List[0].Names[0].Name
+	}
+	return ""
+}
+
+func hdrParam(fd *ast.FuncDecl, i int) string {
+	n := 0
+	for _, p := range fd.Type.Params.List {
+		for _, nm := range p.Names {
+			if n == i {
+				return nm.Name
+			}
+			n++
+		}
+	}
+	return ""
+}
+
+// a.b.c -> ["a","b","c"]
+func hdrPath(e ast.Expr) []string {
+	switch x := e.(type) {
+	case *ast.Ident:
+		return []string{x.Name}
+	case *ast.SelectorExpr:
+		if p := hdrPath(x.X); p != nil {
+			return append(p, x.Sel.Name)
+		}
+	}
+	return nil
+}
+
+func hdrCall(e ast.Expr) (string, []ast.Expr, *ast.CallExpr) {
+	c, ok := e.(*ast.CallExpr)
+	if !ok {
+		return "", nil, nil
+	}
+	p := hdrPath(c.Fun)
+	if p == nil {
+		return "", nil, nil
+	}
+	return strings.Join(p, "."), c.Args, c
+}
+
+// `len(v) < X` -> X
+func hdrLenGuard(is *ast.IfStmt, v string, env map[string]hdrLin, sym func(ast.Expr) (string, bool)) (hdrLin, bool) {
+	be, ok := is.Cond.(*ast.BinaryExpr)
+	if !ok || be.Op != token.LSS || is.Else != nil || is.Init != nil || len(is.Body.List) != 1 {
+		return hdrLin{}, false
+	}
+	if _, ok := is.Body.List[0].(*ast.ReturnStmt); !ok {
+		return hdrLin{}, false
+	}
+	name, args, _ := hdrCall(be.X)
+	if name != "len" || len(args) != 1 {
+		return hdrLin{}, false
+	}
+	if id, ok := args[0].(*ast.Ident); !ok || id.Name != v {
+		return hdrLin{}, false
+	}
+	return hdrEval(be.Y, env, sym)
+}
+
+// ==== END header layouts, shared helpers =====================================================================
+
+// ==== BEGIN frame header layout (builder "bodies"): frameLayout ==============================================
+// JT/T 808 header: protocol/jt808/jt808.go Header.decode, BodyProperty.decode / encode, Header.Encode.
+//
+//	gen_frame_min_len                 the first guard `len(data) < c`
+//	gen_frame_id, gen_frame_prop      (offset, width) of the id word and of the property word handed to BodyProperty.decode
+//	gen_frame_version_flag            the value of Property.Version that selects the second layout
+//	gen_frame_2013 / gen_frame_2019   (start, phone length, ProtocolVersion) of the default / the selected layout
+//	gen_frame_serial                  (offset, width) of the serial number relative to start+phoneLen
+//	gen_frame_serial_guard            c of the guard `len(data) < start+phoneLen+c`;  gen_frame_head_end likewise for `end`
+//	gen_frame_frag_guard / _sum / _no / _frag_extra   the same inside `if isSubPackage`, and the `end += c`
+//	gen_frame_frag_flag               isSubPackage = (PacketFragmented == flag)
+//	gen_frame_prop_decode             field -> (pre-shift, mask, post-shift, truncation) of BodyProperty.decode
+//	gen_frame_prop_alias              fields copied from another field (Version = bit14)
+//	gen_frame_prop_encode             field -> left shift, in the order of the OR chain of BodyProperty.encode
+//	gen_frame_enc_*                   Header.Encode: made length, (offset, width) of id and property, the id fallback,
+//	                                  the cleared fragment flag, (ProtocolVersion tested, byte appended), the serial
+//	                                  bytes as (shift, mask), the order of the appended parts
+func frameLayout(repo string) {
+	files := parseDir(filepath.Join(repo, "protocol/jt808"))
+	pair := func(a, b int64) string { return fmt.Sprintf("(%d, %d)", a, b) }
+
+	// ---------------- Header.decode
+	func() {
+		item := "frame_decode"
+		fd := findFunc(files, "Header", "decode")
+		if fd == nil || fd.Body == nil {
+			fail(item, "Header.decode not found")
+			return
+		}
+		recv, data := hdrRecv(fd), hdrParam(fd, 0)
+		syms := map[string]bool{}
+		sym := func(e ast.Expr) (string, bool) {
+			if id, ok := e.(*ast.Ident); ok && syms[id.Name] {
+				return id.Name, true
+			}
+			return "", false
+		}
+		env := map[string]hdrLin{}
+		defaults, alt := map[string]int64{}, map[string]int64{}
+		var order []string
+		flag := int64(-1)
+		type span struct{ lo, hi hdrLin }
+		fields := map[string]span{}
+		var guards, fragGuards []hdrLin
+		fragExtra, endVar := int64(-1), ""
+		var headEnd hdrLin
+		haveEnd, fragSeen := false, false
+		bad := func(why string) bool { fail(item, why); return false }
+		var walk func(list []ast.Stmt, inFrag bool) bool
+		walk = func(list []ast.Stmt, inFrag bool) bool {
+			for _, st := range list {
+				switch x := st.(type) {
+				case *ast.DeclStmt: // var ( start = 4; phoneLen = 6; version = consts.X )
+					gd, ok := x.Decl.(*ast.GenDecl)
+					if !ok || gd.Tok != token.VAR || inFrag {
+						return bad("declaration shape")
+					}
+					for _, sp := range gd.Specs {
+						vs, ok := sp.(*ast.ValueSpec)
+						if !ok || len(vs.Names) != len(vs.Values) {
+							return bad("var block shape")
+						}
+						for i, nm := range vs.Names {
+							v, ok := intOf(vs.Values[i], nil)
+							if !ok {
+								return bad("var value of " + nm.Name)
+							}
+							defaults[nm.Name] = v
+							syms[nm.Name] = true
+							order = append(order, nm.Name)
+						}
+					}
+				case *ast.IfStmt:
+					if g, ok := hdrLenGuard(x, data, env, sym); ok {
+						if inFrag {
+							fragGuards = append(fragGuards, g)
+						} else {
+							guards = append(guards, g)
+						}
+						continue
+					}
+					if x.Else != nil || x.Init != nil {
+						return bad("if shape")
+					}
+					if be, ok := x.Cond.(*ast.BinaryExpr); ok && be.Op == token.EQL && !inFrag { // h.Property.Version == K
+						p := hdrPath(be.X)
+						k, okk := intOf(be.Y, nil)
+						if len(p) != 3 || p[0] != recv || p[2] != "Version" || !okk || flag >= 0 {
+							return bad("version test shape")
+						}
+						flag = k
+						for _, s := range x.Body.List {
+							as, ok := s.(*ast.AssignStmt)
+							if !ok || as.Tok != token.ASSIGN || len(as.Lhs) != 1 {
+								return bad("version block shape")
+							}
+							id, ok := as.Lhs[0].(*ast.Ident)
+							v, okv := intOf(as.Rhs[0], nil)
+							if !ok || !okv || !syms[id.Name] {
+								return bad("version block assignment")
+							}
+							alt[id.Name] = v
+						}
+						continue
+					}
+					if p := hdrPath(x.Cond); len(p) == 3 && p[0] == recv && p[2] == "isSubPackage" && !inFrag && !fragSeen {
+						fragSeen = true
+						if !walk(x.Body.List, true) {
+							return false
+						}
+						continue
+					}
+					return bad("if shape")
+				case *ast.ExprStmt: // h.Property.decode(data[a:b])
+					name, args, _ := hdrCall(x.X)
+					if name != recv+".Property.decode" || len(args) != 1 || inFrag {
+						return bad("statement shape")
+					}
+					lo, hi, ok := hdrSlice(args[0], data, env, sym)
+					if !ok {
+						return bad("property slice")
+					}
+					fields["Property"] = span{lo, hi}
+				case *ast.AssignStmt:
+					if len(x.Lhs) == 2 && len(x.Rhs) == 2 && x.Tok == token.ASSIGN { // h.SubPackageSum, h.SubPackageNo = 0, 0
+						for _, r := range x.Rhs {
+							if v, ok := intOf(r, nil); !ok || v != 0 {
+								return bad("double assignment")
+							}
+						}
+						continue
+					}
+					if len(x.Lhs) != 1 || len(x.Rhs) != 1 {
+						return bad("assignment shape")
+					}
+					if id, ok := x.Lhs[0].(*ast.Ident); ok {
+						v, okv := hdrEval(x.Rhs[0], env, sym)
+						switch {
+						case x.Tok == token.DEFINE && okv && !inFrag && endVar == "": // end := start + phoneLen + 2
+							endVar, env[id.Name], headEnd, haveEnd = id.Name, v, v, true
+						case x.Tok == token.ADD_ASSIGN && okv && v.isConst() && inFrag && id.Name == endVar && fragExtra < 0:
+							fragExtra = v.c
+						default:
+							return bad("local assignment " + id.Name)
+						}
+						continue
+					}
+					p := hdrPath(x.Lhs[0])
+					if len(p) != 2 || p[0] != recv || x.Tok != token.ASSIGN {
+						return bad("left side")
+					}
+					f := p[1]
+					if lo, hi, ok := hdrSlice(x.Rhs[0], data, env, sym); ok { // h.bcdTerminalPhoneNo = data[start:start+phoneLen]
+						fields[f] = span{lo, hi}
+						continue
+					}
+					name, args, _ := hdrCall(x.Rhs[0])
+					switch {
+					case name == "binary.BigEndian.Uint16" && len(args) == 1:
+						lo, hi, ok := hdrSlice(args[0], data, env, sym)
+						if !ok || !hi.plus(lo, -1).isConst() || hi.plus(lo, -1).c != 2 {
+							return bad("Uint16 slice of " + f)
+						}
+						fields[f] = span{lo, hi}
+					case name == "utils.Bcd2Dec" && len(args) == 1: // rendering of the phone bytes
+					default:
+						id, ok := x.Rhs[0].(*ast.Ident)
+						if !ok || !(syms[id.Name] || id.Name == endVar) {
+							return bad("right side of " + f)
+						}
+					}
+				case *ast.ReturnStmt:
+				default:
+					return bad("statement shape")
+				}
+			}
+			return true
+		}
+		if !walk(fd.Body.List, false) {
+			return
+		}
+		ph, okp := fields["bcdTerminalPhoneNo"]
+		if !okp || len(ph.lo.v) != 1 || ph.lo.c != 0 {
+			fail(item, "phone slice")
+			return
+		}
+		var S, P string
+		for k := range ph.lo.v {
+			S = k
+		}
+		for k := range ph.hi.plus(ph.lo, -1).v {
+			P = k
+		}
+		if c, ok := ph.hi.over(S, P); !ok || c != 0 || S == P {
+			fail(item, "phone slice")
+			return
+		}
+		var V string
+		for _, n := range order {
+			if n != S && n != P {
+				V = n
+			}
+		}
+		rel := func(name string) (int64, int64, bool) { // offset relative to start+phoneLen, width
+			sp, ok := fields[name]
+			if !ok {
+				return 0, 0, false
+			}
+			lo, ok1 := sp.lo.over(S, P)
+			hi, ok2 := sp.hi.over(S, P)
+			return lo, hi - lo, ok1 && ok2
+		}
+		abs := func(name string) (int64, int64, bool) {
+			sp, ok := fields[name]
+			return sp.lo.c, sp.hi.c - sp.lo.c, ok && sp.lo.isConst() && sp.hi.isConst()
+		}
+		idO, idW, ok1 := abs("ID")
+		prO, prW, ok2 := abs("Property")
+		seO, seW, ok3 := rel("SerialNumber")
+		suO, suW, ok4 := rel("SubPackageSum")
+		noO, noW, ok5 := rel("SubPackageNo")
+		he, ok6 := headEnd.over(S, P)
+		if !(ok1 && ok2 && ok3 && ok4 && ok5 && ok6 && haveEnd) || len(guards) != 2 || len(fragGuards) != 1 || flag < 0 || fragExtra < 0 || V == "" {
+			fail(item, "fields or guards missing")
+			return
+		}
+		g1, okg1 := guards[1].over(S, P)
+		g2, okg2 := fragGuards[0].over(S, P)
+		if !guards[0].isConst() || !okg1 || !okg2 {
+			fail(item, "guard expressions")
+			return
+		}
+		for _, n := range []string{S, P, V} {
+			if _, ok := alt[n]; !ok {
+				fail(item, "version block does not set "+n)
+				return
+			}
+		}
+		fmt.Fprintf(&out, "Definition gen_frame_min_len : N := %d.\n", guards[0].c)
+		fmt.Fprintf(&out, "Definition gen_frame_id : N * N := %s.\nDefinition gen_frame_prop : N * N := %s.\n", pair(idO, idW), pair(prO, prW))
+		fmt.Fprintf(&out, "Definition gen_frame_version_flag : N := %d.\n", flag)
+		fmt.Fprintf(&out, "Definition gen_frame_2013 : N * N * N := (%d, %d, %d).\n", defaults[S], defaults[P], defaults[V])
+		fmt.Fprintf(&out, "Definition gen_frame_2019 : N * N * N := (%d, %d, %d).\n", alt[S], alt[P], alt[V])
+		fmt.Fprintf(&out, "Definition gen_frame_serial : N * N := %s.\nDefinition gen_frame_serial_guard : N := %d.\nDefinition gen_frame_head_end : N := %d.\n", pair(seO, seW), g1, he)
+		fmt.Fprintf(&out, "Definition gen_frame_frag_guard : N := %d.\nDefinition gen_frame_sum : N * N := %s.\nDefinition gen_frame_no : N * N := %s.\nDefinition gen_frame_frag_extra : N := %d.\n", g2, pair(suO, suW), pair(noO, noW), fragExtra)
+	}()
+
+	// ---------------- BodyProperty.decode
+	func() {
+		item := "frame_prop_decode"
+		fd := findFunc(files, "BodyProperty", "decode")
+		if fd == nil || fd.Body == nil {
+			fail(item, "BodyProperty.decode not found")
+			return
+		}
+		recv, data := hdrRecv(fd), hdrParam(fd, 0)
+		word := ""
+		isWord := func(e ast.Expr) bool { id, ok := e.(*ast.Ident); return ok && word != "" && id.Name == word }
+		var rows, alias []string
+		fragFlag := int64(-1)
+		for _, st := range fd.Body.List {
+			as, ok := st.(*ast.AssignStmt)
+			if !ok || len(as.Lhs) != 1 || len(as.Rhs) != 1 {
+				fail(item, "statement shape")
+				return
+			}
+			if as.Tok == token.DEFINE { // attribute := binary.BigEndian.Uint16(data)
+				name, args, _ := hdrCall(as.Rhs[0])
+				id, ok := as.Lhs[0].(*ast.Ident)
+				a0, ok2 := (ast.Expr)(nil), false
+				if len(args) == 1 {
+					a0 = args[0]
+					_, ok2 = a0.(*ast.Ident)
+				}
+				if !ok || name != "binary.BigEndian.Uint16" || !ok2 || a0.(*ast.Ident).Name != data || word != "" {
+					fail(item, "word definition")
+					return
+				}
+				word = id.Name
+				continue
+			}
+			p := hdrPath(as.Lhs[0])
+			if len(p) != 2 || p[0] != recv || as.Tok != token.ASSIGN {
+				fail(item, "left side")
+				return
+			}
+			f := p[1]
+			if isWord(as.Rhs[0]) { // p.attribute = attribute
+				continue
+			}
+			if q := hdrPath(as.Rhs[0]); len(q) == 2 && q[0] == recv { // p.Version = p.bit14
+				alias = append(alias, fmt.Sprintf("(%s%%string, %s%%string)", strconv.Quote(f), strconv.Quote(q[1])))
+				continue
+			}
+			if be, ok := as.Rhs[0].(*ast.BinaryExpr); ok && be.Op == token.EQL { // p.isSubPackage = p.PacketFragmented == 1
+				q := hdrPath(be.X)
+				k, okk := intOf(be.Y, nil)
+				if len(q) != 2 || q[0] != recv || q[1] != "PacketFragmented" || !okk || f != "isSubPackage" {
+					fail(item, "flag comparison")
+					return
+				}
+				fragFlag = k
+				continue
+			}
+			pre, mask, post, trunc, ok := hdrExtract(as.Rhs[0], isWord)
+			if !ok {
+				fail(item, "extraction of "+f)
+				return
+			}
+			if mask < 0 {
+				mask = 65535
+			}
+			if trunc == 0 {
+				trunc = 65536
+			}
+			rows = append(rows, fmt.Sprintf("(%s%%string, (%d, %d, %d, %d))", strconv.Quote(f), pre, mask, post, trunc))
+		}
+		if word == "" || len(rows) == 0 || fragFlag < 0 {
+			fail(item, "nothing recognised")
+			return
+		}
+		fmt.Fprintf(&out, "Definition gen_frame_prop_decode : list (string * (N * N * N * N)) := [%s].\n", strings.Join(rows, "; "))
+		fmt.Fprintf(&out, "Definition gen_frame_prop_alias : list (string * string) := [%s].\n", strings.Join(alias, "; "))
+		fmt.Fprintf(&out, "Definition gen_frame_frag_flag : N := %d.\n", fragFlag)
+	}()
+
+	// ---------------- BodyProperty.encode
+	func() {
+		item := "frame_prop_encode"
+		fd := findFunc(files, "BodyProperty", "encode")
+		if fd == nil || fd.Body == nil || len(fd.Body.List) != 1 {
+			fail(item, "BodyProperty.encode not found")
+			return
+		}
+		recv := hdrRecv(fd)
+		rs, ok := fd.Body.List[0].(*ast.ReturnStmt)
+		if !ok || len(rs.Results) != 1 {
+			fail(item, "return shape")
+			return
+		}
+		var rows []string
+		var term func(e ast.Expr) bool
+		term = func(e ast.Expr) bool {
+			switch x := e.(type) {
+			case *ast.ParenExpr:
+				return term(x.X)
+			case *ast.BinaryExpr:
+				if x.Op == token.OR {
+					return term(x.X) && term(x.Y)
+				}
+				if x.Op == token.SHL {
+					k, ok := intOf(x.Y, nil)
+					inner := x.X
+					if c, ok := inner.(*ast.CallExpr); ok && len(c.Args) == 1 { // uint16(p.F)
+						inner = c.Args[0]
+					}
+					p := hdrPath(inner)
+					if !ok || len(p) != 2 || p[0] != recv {
+						return false
+					}
+					rows = append(rows, fmt.Sprintf("(%s%%string, %d)", strconv.Quote(p[1]), k))
+					return true
+				}
+			case *ast.SelectorExpr:
+				p := hdrPath(x)
+				if len(p) != 2 || p[0] != recv {
+					return false
+				}
+				rows = append(rows, fmt.Sprintf("(%s%%string, 0)", strconv.Quote(p[1])))
+				return true
+			}
+			return false
+		}
+		if !term(rs.Results[0]) {
+			fail(item, "OR chain shape")
+			return
+		}
+		fmt.Fprintf(&out, "Definition gen_frame_prop_encode : list (string * N) := [%s].\n", strings.Join(rows, "; "))
+	}()
+
+	// ---------------- Header.Encode
+	func() {
+		item := "frame_encode"
+		fd := findFunc(files, "Header", "Encode")
+		if fd == nil || fd.Body == nil {
+			fail(item, "Header.Encode not found")
+			return
+		}
+		recv, body := hdrRecv(fd), hdrParam(fd, 0)
+		noSym := func(ast.Expr) (string, bool) { return "", false }
+		data, idVar, codeVar := "", "", ""
+		made := int64(-1)
+		var order, serial []string
+		idFallback, fragClear := int64(-1), int64(-1)
+		verConst, verByte := int64(-1), int64(-1)
+		spans := map[string][2]int64{}
+		lenSet := false
+		bad := func(why string) { fail(item, why) }
+		for _, st := range fd.Body.List {
+			switch x := st.(type) {
+			case *ast.AssignStmt:
+				if len(x.Lhs) != 1 || len(x.Rhs) != 1 {
+					bad("assignment shape")
+					return
+				}
+				name, args, call := hdrCall(x.Rhs[0])
+				if x.Tok == token.DEFINE {
+					id, ok := x.Lhs[0].(*ast.Ident)
+					if !ok {
+						bad("definition shape")
+						return
+					}
+					switch {
+					case name == "make" && (len(args) == 2 || len(args) == 3) && data == "":
+						n, ok := intOf(args[1], nil)
+						if !ok {
+							bad("make length")
+							return
+						}
+						data, made = id.Name, n
+					case name == "utils.CreateVerifyCode" && len(args) == 1 && codeVar == "":
+						codeVar = id.Name
+					default:
+						if p := hdrPath(x.Rhs[0]); len(p) == 2 && p[0] == recv && p[1] == "ReplyID" && idVar == "" {
+							idVar = id.Name
+						} else {
+							bad("unexpected definition")
+							return
+						}
+					}
+					continue
+				}
+				if x.Tok != token.ASSIGN {
+					bad("assignment shape")
+					return
+				}
+				if p := hdrPath(x.Lhs[0]); len(p) == 3 && p[0] == recv && p[1] == "Property" { // h.Property.F = ...
+					switch p[2] {
+					case "BodyDayaLen":
+						n2, a2, _ := hdrCall(x.Rhs[0])
+						if n2 != "uint16" || len(a2) != 1 {
+							bad("length assignment")
+							return
+						}
+						n3, a3, _ := hdrCall(a2[0])
+						if id, ok := a3[0].(*ast.Ident); n3 != "len" || len(a3) != 1 || !ok || id.Name != body {
+							bad("length assignment")
+							return
+						}
+						lenSet = true
+					case "PacketFragmented":
+						v, ok := intOf(x.Rhs[0], nil)
+						if !ok {
+							bad("fragment assignment")
+							return
+						}
+						fragClear = v
+					default:
+						bad("property field " + p[2])
+						return
+					}
+					continue
+				}
+				id, ok := x.Lhs[0].(*ast.Ident)
+				if !ok || id.Name != data || name != "append" || len(args) < 2 {
+					bad("append shape")
+					return
+				}
+				if a0, ok := args[0].(*ast.Ident); !ok || a0.Name != data {
+					bad("append shape")
+					return
+				}
+				switch {
+				case call.Ellipsis.IsValid() && len(args) == 2:
+					if p := hdrPath(args[1]); len(p) == 2 && p[0] == recv && p[1] == "bcdTerminalPhoneNo" {
+						order = append(order, "phone")
+					} else if len(p) == 1 && p[0] == body {
+						order = append(order, "body")
+					} else {
+						bad("appended slice")
+						return
+					}
+				case len(args) == 2:
+					if a1, ok := args[1].(*ast.Ident); ok && a1.Name == codeVar && codeVar != "" {
+						order = append(order, "check")
+					} else {
+						bad("appended byte")
+						return
+					}
+				case len(args) == 3: // byte(h.PlatformSerialNumber>>8), byte(h.PlatformSerialNumber&0xFF)
+					isPS := func(e ast.Expr) bool { p := hdrPath(e); return len(p) == 2 && p[0] == recv && p[1] == "PlatformSerialNumber" }
+					for _, a := range args[1:] {
+						pre, mask, post, trunc, ok := hdrExtract(a, isPS)
+						if !ok || trunc != 256 || post != 0 {
+							bad("serial byte")
+							return
+						}
+						if mask < 0 || mask > 255 {
+							mask = 255
+						}
+						serial = append(serial, pair(pre, mask))
+					}
+					order = append(order, "serial")
+				default:
+					bad("append shape")
+					return
+				}
+			case *ast.IfStmt:
+				be, ok := x.Cond.(*ast.BinaryExpr)
+				if !ok || be.Op != token.EQL || x.Else != nil || len(x.Body.List) != 1 {
+					bad("if shape")
+					return
+				}
+				as, ok := x.Body.List[0].(*ast.AssignStmt)
+				if !ok || len(as.Lhs) != 1 || len(as.Rhs) != 1 {
+					bad("if body")
+					return
+				}
+				if id, ok := be.X.(*ast.Ident); ok && id.Name == idVar && idVar != "" { // if id == 0 { id = h.ID }
+					k, okk := intOf(be.Y, nil)
+					p := hdrPath(as.Rhs[0])
+					if !okk || len(p) != 2 || p[0] != recv || p[1] != "ID" {
+						bad("id fallback")
+						return
+					}
+					idFallback = k
+					continue
+				}
+				if p := hdrPath(be.X); len(p) == 2 && p[0] == recv && p[1] == "ProtocolVersion" { // 2019: version byte
+					k, okk := intOf(be.Y, nil)
+					name, args, _ := hdrCall(as.Rhs[0])
+					if !okk || name != "append" || len(args) != 2 {
+						bad("version byte")
+						return
+					}
+					b, okb := intOf(args[1], nil)
+					if !okb {
+						bad("version byte")
+						return
+					}
+					verConst, verByte = k, b
+					order = append(order, "version")
+					continue
+				}
+				bad("if shape")
+				return
+			case *ast.ExprStmt: // binary.BigEndian.PutUint16(data[a:b], id | h.Property.encode())
+				name, args, _ := hdrCall(x.X)
+				if name != "binary.BigEndian.PutUint16" || len(args) != 2 {
+					bad("statement shape")
+					return
+				}
+				lo, hi, ok := hdrSlice(args[0], data, nil, noSym)
+				if !ok || !lo.isConst() || !hi.isConst() || hi.c-lo.c != 2 || hi.c > made {
+					bad("PutUint16 destination")
+					return
+				}
+				if id, ok := args[1].(*ast.Ident); ok && id.Name == idVar {
+					spans["id"] = [2]int64{lo.c, 2}
+				} else if n2, _, _ := hdrCall(args[1]); n2 == recv+".Property.encode" {
+					spans["prop"] = [2]int64{lo.c, 2}
+				} else {
+					bad("PutUint16 source")
+					return
+				}
+			case *ast.ReturnStmt:
+				name, args, _ := hdrCall(x.Results[0])
+				if name != "escape" || len(args) != 1 {
+					bad("return shape")
+					return
+				}
+			default:
+				bad("statement shape")
+				return
+			}
+		}
+		if made < 0 || len(spans) != 2 || idFallback < 0 || fragClear < 0 || verConst < 0 || len(serial) != 2 || !lenSet {
+			bad("parts missing")
+			return
+		}
+		q := make([]string, len(order))
+		for i, o := range order {
+			q[i] = strconv.Quote(o)
+		}
+		fmt.Fprintf(&out, "Definition gen_frame_enc_made : N := %d.\n", made)
+		fmt.Fprintf(&out, "Definition gen_frame_enc_id : N * N := %s.\nDefinition gen_frame_enc_prop : N * N := %s.\n", pair(spans["id"][0], spans["id"][1]), pair(spans["prop"][0], spans["prop"][1]))
+		fmt.Fprintf(&out, "Definition gen_frame_enc_id_fallback : N := %d.\nDefinition gen_frame_enc_frag : N := %d.\n", idFallback, fragClear)
+		fmt.Fprintf(&out, "Definition gen_frame_enc_version : N * N := %s.\n", pair(verConst, verByte))
+		fmt.Fprintf(&out, "Definition gen_frame_enc_serial : list (N * N) := [%s].\n", strings.Join(serial, "; "))
+		fmt.Fprintf(&out, "Definition gen_frame_enc_order : list string := [%s]%%string.\n", strings.Join(q, "; "))
+	}()
+	fmt.Fprintln(&out)
+}
+
+// ==== END frame header layout ================================================================================
+
+// ==== BEGIN jt1078 header layout (builder "bodies"): jt1078Layout ============================================
+// JT/T 1078 RTP header: protocol/jt1078/jt1078.go Packet.decodeHead.
+//
+//	gen_jt1078_min_len        the first guard `len(data) < c`
+//	gen_jt1078_fixed          (field, offset, width) of the fields read with constant bounds: data[a:b], data[i], Uint16(data[a:b])
+//	gen_jt1078_bits           (field, (byte index, shift, mask)): the Flag literal and DataType / SubcontractType,
+//	                          through the byte locals (`attr := data[4]`) or directly (`data[15] >> 4`)
+//	gen_jt1078_end            (base, + unless penetrate, + if video) of `end`;  gen_jt1078_penetrate, gen_jt1078_video_types
+//	gen_jt1078_start          (start, start after the timestamp);  gen_jt1078_ts (offset, width) of the timestamp
+//	gen_jt1078_intervals      ((offset, width) x 2 relative to start, and the `start += c`)
+//	gen_jt1078_blen           (offset, width) of the body length relative to start;  gen_jt1078_head_end likewise
+func jt1078Layout(repo string) {
+	item := "jt1078_layout"
+	files := parseDir(filepath.Join(repo, "protocol/jt1078"))
+	fd := findFunc(files, "Packet", "decodeHead")
+	if fd == nil || fd.Body == nil {
+		fail(item, "decodeHead not found")
+		return
+	}
+	recv, data := hdrRecv(fd), hdrParam(fd, 0)
+	local := map[string]int64{} // the DataType constants of the package
+	for _, f := range files {
+		for _, d := range f.Decls {
+			gd, ok := d.(*ast.GenDecl)
+			if !ok || gd.Tok != token.CONST {
+				continue
+			}
+			iota := int64(0)
+			for _, sp := range gd.Specs {
+				vs := sp.(*ast.ValueSpec)
+				for i, nm := range vs.Names {
+					if i < len(vs.Values) {
+						if v, ok := intOf(vs.Values[i], local); ok {
+							local[nm.Name] = v
+							iota = v
+							continue
+						}
+						if id, ok := vs.Values[i].(*ast.Ident); ok && id.Name == "iota" {
+							local[nm.Name] = iota
+						}
+					} else if strings.HasPrefix(nm.Name, "DataType") {
+						iota++
+						local[nm.Name] = iota
+					}
+				}
+			}
+		}
+	}
+	// prefer the values the existing pass already established (gen_jt1078_datatypes reads the same constants)
+	syms := map[string]bool{}
+	sym := func(e ast.Expr) (string, bool) {
+		if id, ok := e.(*ast.Ident); ok && syms[id.Name] {
+			return id.Name, true
+		}
+		return "", false
+	}
+	env := map[string]hdrLin{}
+	byteVar := map[string]int64{} // attr -> 4
+	var fixed, bits []string
+	var guards []hdrLin
+	endVar, startVar := "", ""
+	endBase, endTs, endVideo := int64(-1), int64(-1), int64(-1)
+	start0, start1 := int64(-1), int64(-1)
+	pen := int64(-1)
+	var video []int64
+	tsO, tsW := int64(-1), int64(-1)
+	var ivl [][2]int64
+	ivlExtra := int64(-1)
+	blO, blW, headEnd := int64(-1), int64(-1), int64(-1)
+	bad := func(why string) bool { fail(item, why); return false }
+	// an expression that picks bits of one byte of data
+	extract := func(e ast.Expr) (int64, int64, int64, bool) {
+		idx := int64(-1)
+		isWord := func(x ast.Expr) bool {
+			if id, ok := x.(*ast.Ident); ok {
+				if i, ok := byteVar[id.Name]; ok {
+					idx = i
+					return true
+				}
+			}
+			if ie, ok := x.(*ast.IndexExpr); ok {
+				if id, ok := ie.X.(*ast.Ident); ok && id.Name == data {
+					if i, ok := intOf(ie.Index, nil); ok {
+						idx = i
+						return true
+					}
+				}
+			}
+			return false
+		}
+		pre, mask, post, _, ok := hdrExtract(e, isWord)
+		if !ok || post != 0 || idx < 0 {
+			return 0, 0, 0, false
+		}
+		if mask < 0 {
+			mask = 255
+		}
+		return idx, pre, mask, true
+	}
+	isRecvPath := func(e ast.Expr, names ...string) bool {
+		p := hdrPath(e)
+		if len(p) != len(names)+1 || p[0] != recv {
+			return false
+		}
+		for i, n := range names {
+			if p[i+1] != n {
+				return false
+			}
+		}
+		return true
+	}
+	// p.DataType != DataTypePenetrate
+	notPen := func(e ast.Expr) bool {
+		be, ok := e.(*ast.BinaryExpr)
+		if !ok || be.Op != token.NEQ || !isRecvPath(be.X, "DataType") {
+			return false
+		}
+		v, ok := intOf(be.Y, local)
+		if !ok || (pen >= 0 && pen != v) {
+			return false
+		}
+		pen = v
+		return true
+	}
+	var videoCond func(e ast.Expr) bool
+	videoCond = func(e ast.Expr) bool {
+		be, ok := e.(*ast.BinaryExpr)
+		if !ok {
+			return false
+		}
+		if be.Op == token.LOR {
+			return videoCond(be.X) && videoCond(be.Y)
+		}
+		if be.Op != token.EQL || !isRecvPath(be.X, "DataType") {
+			return false
+		}
+		v, ok := intOf(be.Y, local)
+		if ok {
+			video = append(video, v)
+		}
+		return ok
+	}
+	uint := func(e ast.Expr) (hdrLin, hdrLin, int64, bool) { // binary.BigEndian.UintNN(data[lo:hi])
+		name, args, _ := hdrCall(e)
+		w := map[string]int64{"binary.BigEndian.Uint16": 2, "binary.BigEndian.Uint32": 4, "binary.BigEndian.Uint64": 8}[name]
+		if w == 0 || len(args) != 1 {
+			return hdrLin{}, hdrLin{}, 0, false
+		}
+		lo, hi, ok := hdrSlice(args[0], data, env, sym)
+		if !ok || !hi.plus(lo, -1).isConst() || hi.plus(lo, -1).c != w {
+			return hdrLin{}, hdrLin{}, 0, false
+		}
+		return lo, hi, w, true
+	}
+	for _, st := range fd.Body.List {
+		switch x := st.(type) {
+		case *ast.IfStmt:
+			if g, ok := hdrLenGuard(x, data, env, sym); ok {
+				guards = append(guards, g)
+				continue
+			}
+			if x.Else != nil || x.Init != nil {
+				return
+			}
+			if be, ok := x.Cond.(*ast.BinaryExpr); ok && be.Op == token.NEQ && isRecvPath(be.X, "ID") { // marker test
+				if _, ok := x.Body.List[len(x.Body.List)-1].(*ast.ReturnStmt); !ok {
+					bad("marker test body")
+					return
+				}
+				continue
+			}
+			if notPen(x.Cond) {
+				for _, s := range x.Body.List {
+					as, ok := s.(*ast.AssignStmt)
+					if !ok || len(as.Lhs) != 1 || len(as.Rhs) != 1 {
+						bad("timestamp block")
+						return
+					}
+					if id, ok := as.Lhs[0].(*ast.Ident); ok {
+						v, okv := intOf(as.Rhs[0], nil)
+						switch {
+						case id.Name == endVar && as.Tok == token.ADD_ASSIGN && okv && endTs < 0:
+							endTs = v
+						case id.Name == startVar && startVar != "" && as.Tok == token.ASSIGN && okv && start1 < 0:
+							start1 = v
+						default:
+							bad("timestamp block assignment")
+							return
+						}
+						continue
+					}
+					lo, _, w, ok := uint(as.Rhs[0])
+					if !ok || !isRecvPath(as.Lhs[0], "Timestamp") || !lo.isConst() {
+						bad("timestamp read")
+						return
+					}
+					tsO, tsW = lo.c, w
+				}
+				continue
+			}
+			isVideoFlag := isRecvPath(x.Cond, "customAttributes", "videoFrame")
+			if isVideoFlag || (len(video) == 0 && videoCond(x.Cond)) {
+				for _, s := range x.Body.List {
+					as, ok := s.(*ast.AssignStmt)
+					if !ok || len(as.Lhs) != 1 || len(as.Rhs) != 1 {
+						bad("video block")
+						return
+					}
+					if id, ok := as.Lhs[0].(*ast.Ident); ok {
+						v, okv := intOf(as.Rhs[0], nil)
+						switch {
+						case id.Name == endVar && as.Tok == token.ADD_ASSIGN && okv && endVideo < 0 && !isVideoFlag:
+							endVideo = v
+						case id.Name == startVar && startVar != "" && as.Tok == token.ADD_ASSIGN && okv && ivlExtra < 0 && isVideoFlag:
+							ivlExtra = v
+						default:
+							bad("video block assignment")
+							return
+						}
+						continue
+					}
+					if isRecvPath(as.Lhs[0], "customAttributes", "videoFrame") {
+						continue
+					}
+					lo, _, w, ok := uint(as.Rhs[0])
+					o, oko := lo.over(startVar)
+					if !ok || !oko || !isVideoFlag {
+						bad("interval read")
+						return
+					}
+					ivl = append(ivl, [2]int64{o, w})
+				}
+				continue
+			}
+			bad("if shape")
+			return
+		case *ast.AssignStmt:
+			if len(x.Lhs) > 1 { // p.Timestamp, p.LastIFrameInterval, p.LastFrameInterval = 0, 0, 0
+				for _, r := range x.Rhs {
+					if v, ok := intOf(r, nil); !ok || v != 0 {
+						bad("multiple assignment")
+						return
+					}
+				}
+				continue
+			}
+			if len(x.Rhs) != 1 {
+				bad("assignment shape")
+				return
+			}
+			if id, ok := x.Lhs[0].(*ast.Ident); ok && x.Tok == token.DEFINE {
+				if ie, ok := x.Rhs[0].(*ast.IndexExpr); ok { // attr := data[4]
+					i, oki := intOf(ie.Index, nil)
+					if d, ok := ie.X.(*ast.Ident); !ok || d.Name != data || !oki {
+						bad("byte local")
+						return
+					}
+					byteVar[id.Name] = i
+					continue
+				}
+				v, okv := intOf(x.Rhs[0], nil)
+				switch {
+				case okv && endVar == "":
+					endVar, endBase = id.Name, v
+					env[id.Name] = hdrSym(id.Name)
+					syms[id.Name] = true
+				case okv && startVar == "":
+					startVar, start0 = id.Name, v
+					syms[id.Name] = true
+				default:
+					bad("local definition " + id.Name)
+					return
+				}
+				continue
+			}
+			if x.Tok != token.ASSIGN {
+				bad("assignment shape")
+				return
+			}
+			p := hdrPath(x.Lhs[0])
+			if len(p) < 2 || p[0] != recv {
+				bad("left side")
+				return
+			}
+			f := p[len(p)-1]
+			if cl, ok := x.Rhs[0].(*ast.CompositeLit); ok {
+				if len(cl.Elts) == 0 { // p.customAttributes = customAttributes{}
+					continue
+				}
+				for _, el := range cl.Elts { // p.Flag = Flag{V: ..., ...}
+					kv, ok := el.(*ast.KeyValueExpr)
+					k, ok2 := kv.Key.(*ast.Ident)
+					if !ok || !ok2 {
+						bad("flag literal")
+						return
+					}
+					i, sh, m, ok := extract(kv.Value)
+					if !ok {
+						bad("flag " + k.Name)
+						return
+					}
+					bits = append(bits, fmt.Sprintf("(%s%%string, (%d, %d, %d))", strconv.Quote(k.Name), i, sh, m))
+				}
+				continue
+			}
+			if ie, ok := x.Rhs[0].(*ast.IndexExpr); ok { // p.LogicChannel = data[14]
+				i, oki := intOf(ie.Index, nil)
+				if d, ok := ie.X.(*ast.Ident); ok && d.Name == data && oki {
+					fixed = append(fixed, fmt.Sprintf("(%s%%string, %d, 1)", strconv.Quote(f), i))
+					continue
+				}
+			}
+			if lo, hi, w, ok := uint(x.Rhs[0]); ok {
+				if lo.isConst() && hi.isConst() {
+					fixed = append(fixed, fmt.Sprintf("(%s%%string, %d, %d)", strconv.Quote(f), lo.c, w))
+					continue
+				}
+				if o, oko := lo.over(startVar); oko && f == "DataBodyLen" {
+					blO, blW = o, w
+					continue
+				}
+				bad("read of " + f)
+				return
+			}
+			name, args, _ := hdrCall(x.Rhs[0])
+			if (name == "string" || name == "utils.Bcd2Dec") && len(args) == 1 { // p.ID = string(data[:4]); p.Sim = utils.Bcd2Dec(data[8:14])
+				lo, hi, ok := hdrSlice(args[0], data, env, sym)
+				if !ok || !lo.isConst() || !hi.isConst() {
+					bad("slice of " + f)
+					return
+				}
+				fixed = append(fixed, fmt.Sprintf("(%s%%string, %d, %d)", strconv.Quote(f), lo.c, hi.c-lo.c))
+				continue
+			}
+			if i, sh, m, ok := extract(x.Rhs[0]); ok { // p.DataType = DataType((data[15] >> 4) & 0x0F)
+				bits = append(bits, fmt.Sprintf("(%s%%string, (%d, %d, %d))", strconv.Quote(f), i, sh, m))
+				continue
+			}
+			if v, ok := hdrEval(x.Rhs[0], env, sym); ok && f == "headEnd" { // p.headEnd = start + 2
+				c, okc := v.over(startVar)
+				if !okc {
+					bad("headEnd")
+					return
+				}
+				headEnd = c
+				continue
+			}
+			bad("right side of " + f)
+			return
+		case *ast.ReturnStmt:
+		default:
+			bad("statement shape")
+			return
+		}
+	}
+	if len(guards) != 2 || !guards[0].isConst() || endBase < 0 || endTs < 0 || endVideo < 0 || start0 < 0 || start1 < 0 ||
+		pen < 0 || len(video) == 0 || tsO < 0 || len(ivl) != 2 || ivlExtra < 0 || blO < 0 || headEnd < 0 {
+		fail(item, "parts missing")
+		return
+	}
+	if c, ok := guards[1].over(endVar); !ok || c != 0 {
+		fail(item, "second guard is not `len(data) < end`")
+		return
+	}
+	fmt.Fprintf(&out, "Definition gen_jt1078_min_len : N := %d.\n", guards[0].c)
+	fmt.Fprintf(&out, "Definition gen_jt1078_fixed : list (string * N * N) := [%s].\n", strings.Join(fixed, "; "))
+	fmt.Fprintf(&out, "Definition gen_jt1078_bits : list (string * (N * N * N)) := [%s].\n", strings.Join(bits, "; "))
+	fmt.Fprintf(&out, "Definition gen_jt1078_end : N * N * N := (%d, %d, %d).\n", endBase, endTs, endVideo)
+	fmt.Fprintf(&out, "Definition gen_jt1078_penetrate : N := %d.\nDefinition gen_jt1078_video_types : list N := %s.\n", pen, nlist(video))
+	fmt.Fprintf(&out, "Definition gen_jt1078_start : N * N := (%d, %d).\nDefinition gen_jt1078_ts : N * N := (%d, %d).\n", start0, start1, tsO, tsW)
+	fmt.Fprintf(&out, "Definition gen_jt1078_intervals : (N * N) * (N * N) * N := ((%d, %d), (%d, %d), %d).\n", ivl[0][0], ivl[0][1], ivl[1][0], ivl[1][1], ivlExtra)
+	fmt.Fprintf(&out, "Definition gen_jt1078_blen : N * N := (%d, %d).\nDefinition gen_jt1078_head_end : N := %d.\n\n", blO, blW, headEnd)
+}
+
+// ==== END jt1078 header layout ===============================================================================
+
 func main() {
 	repo := flag.String("repo", "/repo", "repository root")
 	outp := flag.String("out", "", "output .v file")
@@ -1573,6 +2814,8 @@ func main() {
 	simRegistry(parseDir(filepath.Join(*repo, "terminal")), svc, model) // C20/C06 addition
 	paramTable(model)
 	fixedLayouts(model) // T7 (C07)
+	frameLayout(*repo)    // header layout of the JT/T 808 frame (C01 C02 C04)
+	jt1078Layout(*repo)   // header layout of the JT/T 1078 packet (C17)
 	q := make([]string, len(unrecognised))
 	for i, u := range unrecognised {
 		q[i] = strconv.Quote(u) + "%string"
